@@ -490,6 +490,43 @@ fn error_variants_and_odd_keys(prop: &str, proto: Proto, acc: &mut Acc) {
     }
 }
 
+/// authentic tokens of another implementation whose message is not UTF-8: no validator may be handed (and no
+/// parse may return) a text that was never signed
+fn foreign_non_utf8(prop: &str, proto: Proto, acc: &mut Acc) {
+    let key = domains::key_pool(proto)[0].clone();
+    for t in crate::cases::foreign_tokens().iter().filter(|t| t["proto"] == proto.name()) {
+        let token = t["token"].as_str().unwrap_or("").to_string();
+        let footer = t["footer"].as_str().map(|f| f.to_string());
+        let utf8 = t["valid_utf8"] == json!(true);
+        for (layer, default) in [(Layer::Generic, false), (Layer::Prelude, false)] {
+            adapter::reset_verdicts();
+            let mut ops: Vec<POp> = vec![POp::Validate("role".into(), 0)];
+            if let Some(f) = &footer {
+                ops.push(POp::Footer(f.clone()));
+            }
+            ops.push(POp::Parse(0, 0));
+            let _ = adapter::take_calls();
+            let ev = adapter::parse_history(proto, layer, default, &[key.pk.clone()], &[token.clone()], &ops);
+            let Some(PEvent::Parsed(o, calls)) = ev.last() else { continue };
+            acc.executions += 1;
+            let problem = if utf8 {
+                if o.is_ok() && calls.iter().any(|c| c.key == "role" && c.value == json!("admin")) { None } else { Some(format!("the UTF-8 control token of the reference was not parsed as expected: {} with validator calls {:?}", o.short(), calls.iter().map(|c| (&c.key, &c.value)).collect::<Vec<_>>())) }
+            } else if o.is_ok() {
+                Some(format!("a token whose signed / encrypted message ({} ...) is not UTF-8 was parsed successfully: the claims returned were never in the payload", &t["msg_hex"].as_str().unwrap_or("")[..24.min(t["msg_hex"].as_str().unwrap_or("").len())]))
+            } else if !calls.is_empty() {
+                Some(format!("a validator was handed {:?} although the message is not UTF-8 (that text was never in the payload)", calls.iter().map(|c| (&c.key, &c.value)).collect::<Vec<_>>()))
+            } else {
+                None
+            };
+            match problem {
+                None => acc.bump(if utf8 { "foreign-token:control-parsed" } else { "foreign-token:non-utf8-refused" }),
+                Some(w) => acc.violate(format!("{}|{}|{:?}|foreign-non-utf8-message", prop, proto.name(), layer), w, json!({"config_around_footer": {"proto": proto}, "foreign": t})),
+            }
+        }
+    }
+    adapter::reset_verdicts();
+}
+
 /// N expectations / N validators on one parser, N on both sides of powers of two: every one of them counts
 fn many_registrations(prop: &str, proto: Proto, quick: bool, acc: &mut Acc) {
     let pool = domains::key_pool(proto);
@@ -670,6 +707,9 @@ pub fn run(prop: &'static str, tier: &str) -> i32 {
                 many_registrations(prop, *p, quick, &mut acc);
             }
             error_variants_and_odd_keys(prop, *p, &mut acc);
+            if prop == "C16" {
+                foreign_non_utf8(prop, *p, &mut acc);
+            }
             acc
         });
         all.merge(Acc::merge_all(accs));
